@@ -197,6 +197,10 @@ func (v *Verifier) verifyFunc(fi *FuncInfo) (rep *FuncReport) {
 		rep.Rejected = "no body"
 		return
 	}
+	if fi.Region != "" && fi.RegionStmt == nil {
+		rep.Rejected = "the statement this region contract is about no longer exists: " + strings.Join(fi.CutErr, "; ")
+		return
+	}
 	ncases := 1
 	if len(con.Split) > 0 {
 		ncases = len(con.Split) + 1
@@ -283,6 +287,38 @@ func (v *Verifier) verifyCase(fi *FuncInfo, con *Contract, rep *FuncReport, case
 	for i := 0; i < sig.Params().Len(); i++ {
 		v.bindInput(fr, st, sig.Params().At(i), con, &inputSlices)
 	}
+	if fi.RegionStmt != nil {
+		// region contract: the locals of the enclosing function that the statement uses are inputs too
+		// (arbitrary values of their types; the region's requires, an ASSUMPTION, constrains them)
+		lo, hi := fi.RegionStmt.Pos(), fi.RegionStmt.End()
+		seen := map[*types.Var]bool{}
+		var free []*types.Var
+		ast.Inspect(fi.RegionStmt, func(n ast.Node) bool {
+			id, ok := n.(*ast.Ident)
+			if !ok {
+				return true
+			}
+			o, ok := fi.Pkg.TypesInfo.Uses[id].(*types.Var)
+			if !ok || o.IsField() || seen[o] || o.Pkg() == nil || o.Parent() == o.Pkg().Scope() {
+				return true
+			}
+			if o.Pos() >= lo && o.Pos() < hi {
+				return true // declared inside the region
+			}
+			if o.Pos() < fi.Decl.Pos() || o.Pos() >= fi.Decl.End() {
+				return true
+			}
+			seen[o] = true
+			if _, bound := fr.vars[o]; !bound {
+				free = append(free, o)
+			}
+			return true
+		})
+		sort.Slice(free, func(a, b int) bool { return free[a].Pos() < free[b].Pos() })
+		for _, o := range free {
+			v.bindInput(fr, st, o, con, &inputSlices)
+		}
+	}
 	for i := 0; i < sig.Results().Len(); i++ {
 		r := sig.Results().At(i)
 		cell := v.eng.newCell(r.Name(), v.eng.shapeOf(r.Type()))
@@ -319,6 +355,9 @@ func (v *Verifier) verifyCase(fi *FuncInfo, con *Contract, rep *FuncReport, case
 			add(sig.Params().At(i), false)
 		}
 		v.curReplay = ri
+		if fi.RegionStmt != nil {
+			v.curReplay = nil // a region's inputs are locals of the enclosing function: no replay harness
+		}
 	}
 	// case split: assume the case condition; "x == const" on an input symbol is substituted
 	if caseIdx >= 0 {
@@ -348,6 +387,9 @@ func (v *Verifier) verifyCase(fi *FuncInfo, con *Contract, rep *FuncReport, case
 	}
 	for _, cl := range con.Requires {
 		st.assume(v.asBool(v.evalSpec(fr, st, cl.Expr), fi.Decl.Pos()))
+		if fi.RegionStmt != nil {
+			v.assumed[fmt.Sprintf("%s: region entry condition is ASSUMED, not proved at that program point: %s", rep.Name, cl.Text)] = true
+		}
 	}
 	for i, cl := range con.Axioms {
 		st.assume(v.asBool(v.evalSpec(fr, st, cl.Expr), fi.Decl.Pos()))
@@ -365,9 +407,43 @@ func (v *Verifier) verifyCase(fi *FuncInfo, con *Contract, rep *FuncReport, case
 	}
 	entryPC := append([]*Term{}, st.pc...)
 
-	outs := v.execBlock(fr, st, fi.Decl.Body.List)
+	body := fi.Decl.Body.List
+	if fi.RegionStmt != nil {
+		body = []ast.Stmt{fi.RegionStmt}
+	}
+	outs := v.execBlock(fr, st, body)
 	nret := 0
 	for _, o := range outs {
+		if fi.RegionStmt != nil {
+			// region: `ensures` at the exits that continue after the statement (also by break/continue
+			// to an enclosing loop), `returns` at the return statements inside it; no frame check
+			if o.ctl == CtlDead {
+				continue
+			}
+			nret++
+			o = o.fork()
+			clauses, what := con.Ensures, "ensures"
+			if o.ctl == CtlReturn {
+				clauses, what = con.Returns, "returns"
+				fr.resultV = o.results
+				if fr.resultV == nil {
+					fr.resultV = []Val{}
+				}
+			}
+			for _, cl := range clauses {
+				t := v.asBool(v.evalSpec(fr, o, cl.Expr), fi.RegionStmt.Pos())
+				v.curClauseObj = cl
+				v.obligeNamed(fr, o, fmt.Sprintf("%s%d", what, cl.Ord), fi.RegionStmt.Pos(), t, "region "+what+": "+cl.Text)
+				v.curClauseObj = nil
+			}
+			fr.resultV = nil
+			rp := o.retPos
+			if o.ctl != CtlReturn || rp == token.NoPos {
+				rp = fi.RegionStmt.End()
+			}
+			rep.covers = append(rep.covers, &Obligation{Name: rep.Name + caseTag + "#reach", Path: nret - 1, Func: v.curFn, Kind: "cover", Goal: c.False(), Assume: append([]*Term{}, o.pc...), ctx: v.eng.C, Pos: v.prog.fset.Position(rp), Timeout: int(rp)})
+			continue
+		}
 		switch o.ctl {
 		case CtlDead:
 			continue
